@@ -83,6 +83,32 @@ fn structured_graphs() -> Vec<(Vec<usize>, Vec<usize>, usize)> {
             push(edges, 2 * h, &mut out);
         }
     }
+    // a class assembled in balanced order (pairs, quads, octets: a union-by-rank tree of depth d) followed by ONE
+    // redundant pair (u, v) - every ordered pair of the class - and one or two further elements that must stay apart;
+    // as given only (the orientation of the redundant pair is part of the enumeration)
+    for d in [2u32, 3, 4] {
+        let n = 1usize << d;
+        let mut base = vec![];
+        let mut step = 1;
+        while step < n {
+            let mut i = 0;
+            while i + step < n {
+                base.push((i, i + step));
+                i += 2 * step;
+            }
+            step *= 2;
+        }
+        for u in 0..n {
+            for v in 0..n {
+                let mut e = base.clone();
+                e.push((u, v));
+                out.push((e.iter().map(|p| p.0).collect(), e.iter().map(|p| p.1).collect(), n + 1));
+                // two redundant pairs and two outsiders
+                e.push((v, (u + 1) % n));
+                out.push((e.iter().map(|p| p.0).collect(), e.iter().map(|p| p.1).collect(), n + 2));
+            }
+        }
+    }
     out
 }
 
